@@ -420,21 +420,67 @@ def r4(ctx):
               f"returns `{U(best) if best is not None else None}`")
     h = ctx.fn("scoring.main.ChunkedScoresHolder.plate_id_with_minimum_score")
     el = h.params[1]
-    henv = single_defs(h.node)
-    rets = returns(h.node)
-    par = enclosing_map(h.node)
-    main = [r for r in rets if not isinstance(par.get(r), ast.If)]
-    ctx.need(len(main) == 1, f"{h.site()}: main return not found")
-    e = inline(main[0].value, henv)
+    from engine.astutil import path_returns
+    paths = path_returns(h.node)
+    ctx.need(paths is not None and len(paths) >= 2 and all(r is not None for _, r in paths), f"{h.site()}: the lookup is outside the assignment / if-return fragment")
+    restricted, unrestricted = [], []
+    for conds, ret in paths:
+        pol = None
+        for t, p_ in conds:
+            tt = U(t).replace(" ", "")
+            if tt == f"{el}isNone":
+                pol = p_
+            elif tt == f"{el}isnotNone":
+                pol = not p_
+        if pol is True:
+            unrestricted.append(ret)
+        elif pol is False:
+            restricted.append(ret)
+        else:
+            raise AnalysisError(f"{h.site()}: a return path is not decided by `{el} is None`")
+    ctx.need(restricted and unrestricted, f"{h.site()}: restricted / unrestricted arms not found")
     want = N.key(parse_expr(f"self.plate_ids[np.isin(self.plate_ids, {el})][self.scores[np.isin(self.plate_ids, {el})].argmin()].item()"))
     alt = N.key(parse_expr(f"self.plate_ids[np.isin(self.plate_ids, {el})][np.argmin(self.scores[np.isin(self.plate_ids, {el})])].item()"))
-    got = N.key(e)
-    ctx.check("R4", f"{h.site()}::argmin-same-mask", got in (want, alt),
+    ok = all(N.key(e) in (want, alt) for e in restricted)
+    ctx.check("R4", f"{h.site()}::argmin-same-mask", ok,
               "ids[mask][scores[mask].argmin()] with mask = isin(ids, eligible)",
-              f"the minimum lookup is `{U(e)[:140]}`: ids and scores must be filtered by the same exact-membership mask and reduced by argmin "
+              f"the minimum lookup is `{U(restricted[0])[:140]}`: ids and scores must be filtered by the same exact-membership mask and reduced by argmin "
               f"(anything order-dependent breaks when chunk files are combined in another order)")
-    un = [r for r in rets if r not in main]
-    ok = all(N.key(r.value) in (N.key(parse_expr("self.plate_ids[self.scores.argmin()].item()")), N.key(parse_expr("self.plate_ids[np.argmin(self.scores)].item()"))) for r in un)
+    # unrestricted arm; plate_ids and scores have the same length (class invariant, trusted), so a full-range index vector over
+    # either is the identity selection on both
+    def full_range_identity(e):
+        import copy as _copy
+
+        class F(ast.NodeTransformer):
+            def visit_Subscript(self, n):
+                self.generic_visit(n)
+                sl = n.slice
+                if isinstance(sl, ast.Call) and U(sl.func) == "np.arange" and len(sl.args) == 1 and U(sl.args[0]).replace(" ", "") in (
+                        "self.scores.size", "self.plate_ids.size", "len(self.scores)", "len(self.plate_ids)", "self.scores.shape[0]", "self.plate_ids.shape[0]") \
+                        and U(n.value) in ("self.scores", "self.plate_ids"):
+                    return n.value
+                return n
+        return F().visit(_copy.deepcopy(e))
+    wants_u = (N.key(parse_expr("self.plate_ids[self.scores.argmin()].item()")), N.key(parse_expr("self.plate_ids[np.argmin(self.scores)].item()")))
+
+    def unrestricted_ok(e):
+        if N.key(e) in wants_u:
+            return True
+        # ids[R[k]] with R the full range: R[k] == k
+        e2 = full_range_identity(e)
+        if N.key(e2) in wants_u:
+            return True
+        # ids[R[k]] with R the full range: the composition law X[R[k]] == X[R][k] exposes the identity selection
+        class Comp(ast.NodeTransformer):
+            def visit_Subscript(self, n):
+                self.generic_visit(n)
+                if isinstance(n.slice, ast.Subscript) and isinstance(n.slice.value, ast.Call) and U(n.slice.value.func) == "np.arange":
+                    return ast.Subscript(value=ast.Subscript(value=n.value, slice=n.slice.value, ctx=ast.Load()), slice=n.slice.slice, ctx=ast.Load())
+                return n
+        import copy as _copy
+        e3 = full_range_identity(Comp().visit(_copy.deepcopy(e)))
+        return N.key(e3) in wants_u
+    ok = all(unrestricted_ok(e) for e in unrestricted)
     ctx.check("R4", f"{h.site()}::unrestricted-arm", ok, "without a restriction: ids[scores.argmin()]", "the unrestricted arm is not ids[scores.argmin()]")
 
 
@@ -445,9 +491,10 @@ def r5(ctx):
     f = ctx.fn("scoring.main.ChunkedScoresHolder.combine")
     o = f.params[1]
     st = {}
+    cenv = single_defs(f.node)
     for n in walk_own(f.node):
         if isinstance(n, ast.Assign) and isinstance(n.targets[0], ast.Attribute):
-            st[n.targets[0].attr] = U(n.value).replace(" ", "")
+            st[n.targets[0].attr] = U(inline(n.value, cenv)).replace(" ", "")
     forms = {"scores": (f"np.concatenate((self.scores,{o}.scores))", f"np.concatenate([self.scores,{o}.scores])"),
              "plate_ids": (f"np.concatenate((self.plate_ids,{o}.plate_ids))", f"np.concatenate([self.plate_ids,{o}.plate_ids])")}
     rev = {"scores": (f"np.concatenate(({o}.scores,self.scores))", f"np.concatenate([{o}.scores,self.scores])"),
@@ -493,15 +540,51 @@ def r6(ctx):
     writes = [c for c in calls(f.node, tail="write")]
     par = enclosing_map(f.node)
     outs = {}
+    from engine.astutil import stmt_conditions
+    conds_of = stmt_conditions(f.node.body)
+
+    def branch_of(stmt):
+        """'some' / 'none' when the statement is reached only with / without a selected plate; None when unconditional"""
+        b = None
+        for t, pol in conds_of.get(id(stmt), []):
+            tt = U(t).replace(" ", "")
+            if res and tt == f"{res[0]}isnotNone":
+                b = "some" if pol else "none"
+            elif res and tt == f"{res[0]}isNone":
+                b = "none" if pol else "some"
+        return b
+
+    def stmt_of(n):
+        while n in par and not isinstance(n, ast.stmt):
+            n = par[n]
+        return n
     for w in writes:
-        n = w
-        branch = None
-        while n in par:
-            p = par[n]
-            if isinstance(p, ast.If) and res and U(p.test).replace(" ", "") == f"{res[0]}isnotNone":
-                branch = "some" if any(n is b for b in p.body) else "none"
-            n = p
-        outs[branch] = U(w.args[0]).replace(" ", "")
+        br = branch_of(stmt_of(w))
+        arg0 = w.args[0]
+        if br is not None:
+            outs[br] = U(arg0).replace(" ", "")
+            continue
+        # an unconditional write of a value that was chosen per branch: read the branch off the definitions
+        names = [x.id for x in ast.walk(arg0) if isinstance(x, ast.Name)]
+        done = False
+        for nm in names:
+            ds = [n for n in walk_own(f.node) if isinstance(n, ast.Assign) and len(n.targets) == 1 and U(n.targets[0]) == nm]
+            if len(ds) == 2 and {branch_of(d) for d in ds} == {"some", "none"}:
+                for d in ds:
+                    outs[branch_of(d)] = U(inline(arg0, {nm: d.value})).replace(" ", "")
+                done = True
+                break
+            if len(ds) == 1 and isinstance(ds[0].value, ast.IfExp):
+                t = ds[0].value
+                tt = U(t.test).replace(" ", "")
+                if res and tt in (f"{res[0]}isnotNone", f"{res[0]}isNone"):
+                    some, none = (t.body, t.orelse) if tt.endswith("isnotNone") else (t.orelse, t.body)
+                    outs["some"] = U(inline(arg0, {nm: some})).replace(" ", "")
+                    outs["none"] = U(inline(arg0, {nm: none})).replace(" ", "")
+                    done = True
+                    break
+        if not done:
+            outs[None] = U(arg0).replace(" ", "")
     ok = res and outs.get("some") == f"str({res[0]}.plate_id)" and outs.get("none") in ("str(-1)", "'-1'", '"-1"')
     ctx.check("R6", f"{f.site()}::output", ok, "writes str(plate.plate_id), or -1 when nothing is eligible", f"writes {outs}")
 
